@@ -4,6 +4,7 @@ import (
 	"bytes"
 	"encoding/json"
 	"fmt"
+	"sort"
 
 	"github.com/go-openapi/spec"
 
@@ -24,6 +25,9 @@ func c09NumCases(env *core.Env) int {
 // twinTextWorld builds a world in which the same relative $ref text occurs in documents of two different directories
 // (each directory has its own other.json): the text designates a different document depending on where it is written.
 func twinTextWorld(idx int) *gen.World {
+	if idx >= 52 {
+		return longChainWorld(idx)
+	}
 	if idx >= 48 {
 		return sameTextChainWorld(idx)
 	}
@@ -91,7 +95,38 @@ func sameTextChainWorld(idx int) *gen.World {
 			"definitions": map[string]interface{}{"d": map[string]interface{}{"title": "leaf definition", "type": "object"}}}}}
 }
 
-const c09TwinWorlds = 48 + 4
+// longChainWorld: an acyclic chain of n schema $refs (one ending in a self loop), in the root or in a second document:
+// deeper than any bound a cycle detector may be tempted to put on the $ref stack.
+func longChainWorld(idx int) *gen.World {
+	n := []int{40, 64, 33, 100}[idx%4]
+	loop := idx%2 == 1
+	other := (idx/2)%2 == 1
+	doc := gen.RootURL
+	if other {
+		doc = "file:///w/a/s/x.json"
+	}
+	defs := map[string]interface{}{}
+	for i := 0; i < n; i++ {
+		defs[fmt.Sprintf("c%d", i)] = map[string]interface{}{"title": fmt.Sprintf("link %d", i), "properties": map[string]interface{}{"next": map[string]interface{}{"$ref": fmt.Sprintf("#/definitions/c%d", i+1)}}}
+	}
+	last := map[string]interface{}{"title": "end of the chain", "type": "object"}
+	if loop {
+		last["additionalProperties"] = map[string]interface{}{"$ref": fmt.Sprintf("#/definitions/c%d", n)}
+	}
+	defs[fmt.Sprintf("c%d", n)] = last
+	root := map[string]interface{}{"swagger": "2.0", "info": map[string]interface{}{"title": "t", "version": "1"}, "paths": map[string]interface{}{}}
+	w := &gen.World{Root: gen.RootURL, Features: map[string]int{"long-chain-world": 1}, Slots: n + 1, Docs: map[string]interface{}{gen.RootURL: root}}
+	if other {
+		w.Docs[doc] = map[string]interface{}{"definitions": defs}
+		root["definitions"] = map[string]interface{}{"entry": map[string]interface{}{"$ref": "s/x.json#/definitions/c0"}}
+		w.Features["cross-document-ref"] = 1
+	} else {
+		root["definitions"] = defs
+	}
+	return w
+}
+
+const c09TwinWorlds = 48 + 4 + 4
 
 func c09World(env *core.Env, idx int) (*gen.World, bool) {
 	if idx < c09TwinWorlds {
@@ -290,6 +325,41 @@ func c09Run(env *core.Env, idx int) core.CaseResult {
 			}
 		}
 	}
+	// the same documents with another root, in another directory, in the same process
+	if idx >= c09TwinWorlds && len(w.Docs) > 1 && len(res.Violations) == 0 {
+		var others []string
+		for u := range w.Docs {
+			if u != w.Root {
+				others = append(others, u)
+			}
+		}
+		sort.Strings(others)
+		alt := &gen.World{Docs: w.Docs, Root: others[idx%len(others)], Features: w.Features}
+		inAlt := oworld(alt)
+		refsAlt, _ := inAlt.Reachable(oracle.SpecStarts(inAlt, alt.Root, false), true)
+		ok := true
+		for _, ri := range refsAlt {
+			if !ri.Resolvable && ri.Kind != "schema" {
+				ok = false
+			}
+		}
+		if ok {
+			ra := runExpandSpec(alt, o)
+			res.Evals++
+			res.Count("second-root-in-same-process", 1)
+			witAlt := worldWitness(alt, o, map[string]interface{}{"note": "second expansion in the same process, root = another document of the same world"})
+			if ra.Panic != "" || ra.Err != nil {
+				res.Violate("skip(second root): spurious-error: "+errClass(fmt.Errorf("%v %s", ra.Err, ra.Panic)), fmt.Sprintf("%v %s", ra.Err, ra.Panic), witAlt)
+			} else {
+				witAlt["output"] = ra.Out
+				outAlt := withRoot(inAlt, alt.Root, ra.Out)
+				sw2 := &skipWalker{in: inAlt, out: outAlt, root: alt.Root, seen: map[[2]oracle.State]bool{}, report: func(class, detail string) { res.Violate(class+" (second root)", detail, witAlt) }}
+				for _, st := range oracle.SpecStarts(inAlt, alt.Root, false) {
+					sw2.walk(st.St, st.St, st.Kind, false)
+				}
+			}
+		}
+	}
 	res.NonTrivial = sw.imported > 0 && sw.rewritten > 0
 	if acyclic {
 		res.Count("world.acyclic", 1)
@@ -344,7 +414,7 @@ func init() {
 		Run:      c09Run,
 		Floors: func(env *core.Env) []string {
 			return []string{"schema-ref-holders-checked", "schema-refs-rewritten", "schema-refs-in-imported-elements", "positions-compared", "two-stage-compared", "world.acyclic", "world.cyclic",
-				"dir.same", "dir.sub", "dir.parent", "dir.cousin", "dir.http", "feat.chain-across-documents", "feat.twin-text-world"}
+				"dir.same", "dir.sub", "dir.parent", "dir.cousin", "dir.http", "feat.chain-across-documents", "feat.twin-text-world", "feat.long-chain-world", "second-root-in-same-process"}
 		},
 		Assumptions: []string{"the two-stage comparison feeds the skip result back as the root document at the same location, with the same loader"},
 	})
